@@ -139,11 +139,16 @@ func (b *TermBank) mk(op, sort, name string, val *big.Int, args ...*Term) *Term 
 
 // ---------- leaves
 
-func (b *TermBank) Int(v int64) *Term      { return b.mk("int", SInt, "", big.NewInt(v)) }
-func (b *TermBank) IntB(v *big.Int) *Term  { return b.mk("int", SInt, "", new(big.Int).Set(v)) }
-func (b *TermBank) True() *Term            { return b.mk("true", SBool, "", nil) }
-func (b *TermBank) False() *Term           { return b.mk("false", SBool, "", nil) }
-func (b *TermBank) Bool(v bool) *Term      { if v { return b.True() }; return b.False() }
+func (b *TermBank) Int(v int64) *Term     { return b.mk("int", SInt, "", big.NewInt(v)) }
+func (b *TermBank) IntB(v *big.Int) *Term { return b.mk("int", SInt, "", new(big.Int).Set(v)) }
+func (b *TermBank) True() *Term           { return b.mk("true", SBool, "", nil) }
+func (b *TermBank) False() *Term          { return b.mk("false", SBool, "", nil) }
+func (b *TermBank) Bool(v bool) *Term {
+	if v {
+		return b.True()
+	}
+	return b.False()
+}
 func (b *TermBank) Const(name, sort string) *Term { return b.mk("const", sort, name, nil) }
 func (b *TermBank) Var(name, sort string) *Term   { return b.mk("var", sort, name, nil) }
 func (b *TermBank) Fresh(prefix, sort string) *Term {
